@@ -167,6 +167,8 @@ def check_thresh_perfect(rep, run: Run, D: Blocks, graph_status=None, cand_statu
                                    "matching size is compared with 2·(M+N) (negated form; the arm taken as feasible is followed "
                                    "by BN-SEARCH)", derived=sym.show(y))
                     NEGATED_PERFECT.append(ev["node"])
+                elif unmodelled_in(y) or unmodelled_in(total):
+                    rep.unmodelled("BN-PERFECT", fi, ev["node"], "the size the matching is compared with was not followed exactly")
                 else:
                     rep.refuted("BN-PERFECT", fi, ev["node"],
                                 f"feasibility test is `len(matching) {o} {sym.show(y)}` instead of `== 2·(M+N)`: "
